@@ -121,7 +121,7 @@ pub fn run(env: &Env) -> Report {
             let ok = type_str(s, &mut t, &mut rep, lead, &mut typed) && { let _ = &keys; type_str(s, &mut t, &mut rep, word, &mut typed) } && type_str(s, &mut t, &mut rep, trail, &mut typed);
             if !ok { untypeable += 1; }
             if rep.samples.len() < 3 { if let Obs::Full { cands, aux, .. } = &s.last { rep.sample(json!({"composed": aux, "opts": o.bits_str(), "candidates": cands})); } }
-            s.finish(&mut t); s.events.clear();
+            s.finish(&mut t); s.clear_events();
         }
         rep.add("untypeable-words-skipped", untypeable);
         t.flush();
@@ -201,7 +201,7 @@ pub fn run_c16(env: &Env) -> Report {
             for s in fx.iter_mut() {
                 let mut typed = String::new();
                 for c in txt.chars().chain("|".chars()) { let code = code_for_char(c).unwrap(); let ob = s.key(&mut t, code, 0, 0); typed.push(c); let ctx = json!({"stream": "c16", "layout": s.layout, "opts": s.opts.bits_str(), "events": s.events}); let so = s.opts; check_ansi(env, &mut rep, &so, &typed, &ob, &ctx); rep.eval(Some(&format!("fc|{}|{}", s.opts.bits_str(), typed))); }
-                s.finish(&mut t); s.events.clear();
+                s.finish(&mut t); s.clear_events();
             }
         }
         for _ in 0..(if env.quick() { 120 } else { 600 }) {
@@ -231,7 +231,46 @@ pub fn run_c16(env: &Env) -> Report {
                         let tx = typed.clone() + "\u{1}"; check_ansi(env, &mut rep, &so, &tx, &ob, &ctx); rep.eval(Some(&format!("fn|{}|{}|{}", s.opts.bits_str(), typed, code)));
                     }
                     { let ob = s.backspace(&mut t, false); let ctx = json!({"stream": "c16", "layout": s.layout, "opts": s.opts.bits_str(), "events": s.events}); let so = s.opts; let tx = typed.clone() + "\u{1}"; check_ansi(env, &mut rep, &so, &tx, &ob, &ctx); rep.eval(Some(&format!("fb|{}|{}", s.opts.bits_str(), typed))); }
-                    s.finish(&mut t); s.events.clear();
+                    s.finish(&mut t); s.clear_events();
+                }
+            }
+        }
+        // ANSI switched on and off by update_engine IN THE MIDDLE of a word (a settings dialog does not wait for the word to end): from the
+        // next key on, what is returned follows the configuration now in force
+        {
+            let mut o1 = o; o1.ansi = false;
+            let mut pt = Sess::new(&mut t, &env.data, "pt", PHONETIC, o1, &xdg);
+            let mut ft = Sess::new(&mut t, &env.data, "ft", &lay.probhat, o1, &xdg);
+            for wi in 0..(if env.quick() { 24 } else { 120 }) {
+                if let Some(s) = pt.as_mut() {
+                    let txt = match wi % 4 { 0 => rng.pick(&pools.emoticons).clone(), 1 => rng.pick(&pools.emoji_names).clone(), _ => pools.word(&mut rng) };
+                    if txt.chars().all(crate::code_ok) && txt.chars().count() < 20 && txt.chars().count() > 1 {
+                        s.clear_events();
+                        let cut = 1 + rng.below(txt.chars().count() - 1);
+                        let mut pre = String::new();
+                        for (ci, c) in txt.chars().enumerate() {
+                            if ci == cut { let mut o2 = s.opts; o2.ansi = !o2.ansi; s.update(&mut t, PHONETIC, o2); }
+                            pre.push(c); let ob = s.key(&mut t, code_for_char(c).unwrap(), 0, 0);
+                            let ctx = json!({"stream": "c16", "layout": PHONETIC, "opts": s.opts.bits_str(), "text": pre, "events": s.events}); let so = s.opts;
+                            check_ansi(env, &mut rep, &so, &pre, &ob, &ctx); rep.eval(Some(&format!("pt|{}|{}|{}", s.opts.bits_str(), pre, cut))); rep.count("midword-ansi-switch-key");
+                        }
+                        s.finish(&mut t);
+                    }
+                }
+                if let Some(s) = ft.as_mut() {
+                    let word = words[rng.below(words.len())];
+                    if let Some(keys) = keys_for(&inv, word) { if keys.len() > 1 {
+                        s.clear_events();
+                        let cut = 1 + rng.below(keys.len() - 1);
+                        let mut typed = String::new();
+                        for (ci, (code, md)) in keys.iter().enumerate() {
+                            if ci == cut { let mut o2 = s.opts; o2.ansi = !o2.ansi; let lp = s.layout.clone(); s.update(&mut t, &lp, o2); }
+                            let ob = s.key(&mut t, *code, *md, 0); if let Some(k) = KEYS.iter().find(|k| k.1 == *code) { if let Some(ch) = k.2 { typed.push(ch); } }
+                            let ctx = json!({"stream": "c16", "layout": s.layout, "opts": s.opts.bits_str(), "events": s.events}); let so = s.opts;
+                            check_ansi(env, &mut rep, &so, &typed, &ob, &ctx); rep.eval(Some(&format!("ft|{}|{}|{}", s.opts.bits_str(), typed, cut))); rep.count("midword-ansi-switch-key");
+                        }
+                        s.finish(&mut t);
+                    } }
                 }
             }
         }
@@ -277,11 +316,14 @@ pub fn run_c17(env: &Env) -> Report {
         let mut o = Opts::from_bits((rng.next() & 0x7FF) as u32); o.phonetic_suggestion = ui % 8 != 7; o.fixed_suggestion = ui % 8 != 7; o.kar_order = false;
         if ui % 3 == 0 { std::fs::write(user_dir(&xdg).join("phonetic-candidate-selection.json"), serde_json::to_string(&super::c05::store_sample()).unwrap()).unwrap(); }
         let mut on = o; on.smart_quote = true; let mut off = o; off.smart_quote = false;
-        let mut a = match Sess::new(&mut t, &env.data, "on", &layout, on, &xdg) { Some(s) => s, None => return rep };
-        let mut b = match Sess::new(&mut t, &env.data, "off", &layout, off, &xdg) { Some(s) => s, None => return rep };
-        let nwords = if env.quick() { 5 } else { 12 };
+        // both contexts of a pair are reached by the same route (directly / via the other method / via other options + update_engine)
+        let route = ui / 4;
+        let mut a = match Sess::new_routed(&mut t, &env.data, "on", &layout, on, &xdg, route) { Some(s) => s, None => return rep };
+        let mut b = match Sess::new_routed(&mut t, &env.data, "off", &layout, off, &xdg, route) { Some(s) => s, None => return rep };
+        let earlier = if fixed { ascii_keys("ka") } else { ascii_keys("bon") };
+        let nwords = if env.quick() { 6 } else { 12 };
         for wi in 0..nwords {
-            let word: String = if fixed { ["ka", "kh", "ok", "ki"][wi % 4].to_string() } else { match wi % 4 { 0 => pools.word(&mut rng), 1 => rng.pick(&pools.emoji_names).clone(), 2 => ["e", "a'b", "ki\"t", ":'(", ":\"D", "", "\\", "\\"][rng.below(8)].to_string(), _ => ["ami", "e", "kor", "sob"][rng.below(4)].to_string() } };
+            let word: String = if fixed { ["ka", "kh", "ok", "ki", "^", "k^"][wi % 6].to_string() } else { match wi % 4 { 0 => pools.word(&mut rng), 1 => rng.pick(&pools.emoji_names).clone(), 2 => ["e", "a'b", "ki\"t", ":'(", ":\"D", "", "\\", "\\"][rng.below(8)].to_string(), _ => ["ami", "e", "kor", "sob"][rng.below(4)].to_string() } };
             if !word.chars().all(crate::code_ok) { continue; }
             for (li, lead) in wraps.iter().enumerate() {
                 for (ti, trail) in wraps.iter().enumerate() {
@@ -290,7 +332,9 @@ pub fn run_c17(env: &Env) -> Report {
                     if (li * 31 + ti * 17 + wi) % m != ui % m { continue; }
                     let txt = format!("{}{}{}", lead, word, trail);
                     if txt.is_empty() || !txt.chars().all(crate::code_ok) { continue; }
-                    if fixed && !txt.chars().all(|c| "kahoi'\"(.:".contains(c)) { continue; }
+                    if fixed && !txt.chars().all(|c| "kahoi^'\"(.:".contains(c)) { continue; }
+                    // an earlier word, ended the same way in both contexts (nothing / finish / ctrl-backspace / backspaces / commit)
+                    { let kind = (li + ti * 3 + wi) % 5; prelude(&mut a, &mut t, kind, &earlier); prelude(&mut b, &mut t, kind, &earlier); }
                     // every prefix is an input too: the two contexts are compared after EVERY key
                     let full_txt = txt.clone();
                     let mut txt = String::new();
@@ -313,7 +357,8 @@ pub fn run_c17(env: &Env) -> Report {
                             if ua != ub {
                                 // known shape: the raw typed text coincides with a wrapped candidate on one side only (push_checked)
                                 let raw_collides = cb.iter().filter(|c| **c == txt).count() != ca.iter().filter(|c| **c == txt).count() || ca.len() != cb.len();
-                                let cls = if raw_collides && (on.english || env.data.emoticons.contains_key(txt.as_str())) { "raw-text-collides-with-quoted-candidate" } else { "lists-differ-beyond-curling" };
+                                // (recorded for the PHONETIC method only: the fixed method adds the raw keys only when they differ from the composed text)
+                                let cls = if !fixed && raw_collides && (on.english || env.data.emoticons.contains_key(txt.as_str())) { "raw-text-collides-with-quoted-candidate" } else { "lists-differ-beyond-curling" };
                                 rep.violation("C17", cls, format!("text {:?}: on {:?} vs off {:?}", txt, ca, cb), ctx.clone());
                             } else if sa != sb {
                                 // known shape only: the learned value of the word IS the raw word part (the user once chose the English candidate)
@@ -391,13 +436,16 @@ pub fn run_c18(env: &Env) -> Report {
         for b in 0..8u32 { let mut o = Opts::none(); o.fixed_suggestion = true; o.vowel = true; o.chandra = true; o.english = b & 1 == 1; o.smart_quote = b & 2 == 2; o.kar = b & 4 == 4;
             let born_ansi = (b / 2 + ui as u32) % 2 == 0; let mut o0 = o; o0.ansi = born_ansi;
             if let Some(mut s) = Sess::new(&mut t, &env.data, &format!("f{}", b), &lay.probhat, o0, &xdg) { if born_ansi { let lp = lay.probhat.clone(); s.update(&mut t, &lp, o); } fcs.push(s); } }
+        let earlier_p = ascii_keys("bon"); let earlier_f = ascii_keys("amar");
         // emoticons (phonetic): emoji offered, literal stays available
         for (i, (emo, emoji)) in emoticons.iter().enumerate() {
             if i % nunits != ui { continue; }
             if !emo.chars().all(crate::code_ok) { rep.count("untypeable-emoticon"); continue; }
-            for s in pcs.iter_mut() {
+            for (pi, s) in pcs.iter_mut().enumerate() {
+                // an earlier word that ended by finish / ctrl-backspace / backspaces / commit (or none): the table entry is found all the same
+                s.clear_events(); prelude(s, &mut t, (i / nunits + pi) % 5, &earlier_p);
                 let o = s.type_text(&mut t, emo);
-                let ctx = json!({"stream": "c18", "layout": PHONETIC, "opts": s.opts.bits_str(), "text": emo});
+                let ctx = json!({"stream": "c18", "layout": PHONETIC, "opts": s.opts.bits_str(), "text": emo, "events": s.events});
                 if let Obs::Full { cands, .. } = &o {
                     if !cands.iter().any(|c| c == emoji) { rep.violation("C18", "emoticon-emoji-missing", format!("emoticon {:?}: emoji {:?} not in {:?}", emo, emoji, cands), ctx.clone()); }
                     if !cands.iter().any(|c| c == emo) { rep.violation("C18", "emoticon-literal-missing", format!("emoticon {:?}: the literal text is not a candidate: {:?}", emo, cands), ctx.clone()); }
@@ -409,10 +457,11 @@ pub fn run_c18(env: &Env) -> Report {
             let keys: Option<Vec<u16>> = emo.chars().map(code_for_char).collect();
             if let Some(keys) = keys {
                 let s = &mut fcs[i % 8];
+                s.clear_events(); prelude(s, &mut t, (i / nunits + i) % 5, &earlier_f);
                 let mut o = Obs::Unit; let mut all = true;
                 for k in &keys { o = s.key(&mut t, *k, 0, 0); if o.is_empty_suggestion() { all = false; } }
                 if all { if let Obs::Full { cands, .. } = &o {
-                    let ctx = json!({"stream": "c18", "layout": s.layout, "opts": s.opts.bits_str(), "raw_keys": emo});
+                    let ctx = json!({"stream": "c18", "layout": s.layout, "opts": s.opts.bits_str(), "raw_keys": emo, "events": s.events});
                     if !cands.iter().any(|c| c == emoji) { rep.violation("C18", "emoticon-emoji-missing-fixed", format!("raw keys {:?}: emoji {:?} not in {:?}", emo, emoji, cands), ctx); }
                     rep.eval(Some(&format!("emoticon-fixed|{}", emo)));
                 } }
@@ -426,8 +475,9 @@ pub fn run_c18(env: &Env) -> Report {
             for (wi, (l, r)) in wrappings.iter().enumerate() {
                 let s = &mut pcs[(i + wi) % 4];
                 let txt = format!("{}{}{}", l, name, r);
+                s.clear_events(); prelude(s, &mut t, (i / nunits + wi) % 5, &earlier_p);
                 let o = s.type_text(&mut t, &txt);
-                let ctx = json!({"stream": "c18", "layout": PHONETIC, "opts": s.opts.bits_str(), "text": txt});
+                let ctx = json!({"stream": "c18", "layout": PHONETIC, "opts": s.opts.bits_str(), "text": txt, "events": s.events});
                 if let Obs::Full { cands, .. } = &o {
                     if env.data.emoticons.contains_key(txt.as_str()) { s.finish(&mut t); continue; }
                     let (cp, _, cr) = wrapping(&env.data, &s.opts, &txt);
@@ -452,6 +502,7 @@ pub fn run_c18(env: &Env) -> Report {
                 let s = &mut fcs[(i + wi) % 8];
                 let lk = keys_for(&inv, l); let rk = keys_for(&inv, r);
                 let (lk, rk) = match (lk, rk) { (Some(a), Some(b)) => (a, b), _ => continue };
+                s.clear_events(); prelude(s, &mut t, (i / nunits + wi) % 5, &earlier_f);
                 let mut o = Obs::Unit;
                 for (code, md) in lk.iter().chain(keys.iter()).chain(rk.iter()) { o = s.key(&mut t, *code, *md, 0); }
                 if let Obs::Full { cands, aux, .. } = &o {
@@ -474,7 +525,7 @@ pub fn run_c18(env: &Env) -> Report {
                         rep.eval(Some(&format!("bn|{}|{}", s.opts.bits_str(), aux)));
                     } else { rep.count("bengali-name-not-composed-verbatim"); }
                 }
-                s.finish(&mut t); s.events.clear();
+                s.finish(&mut t); s.clear_events();
             }
         }
         t.flush();
